@@ -24,7 +24,11 @@ using prog::FuncInfo;
 static SymTab g_sym;
 static const char *g_phase = "";
 static char g_phase_buf[160];
-static void phase(const char *what, const std::string &arg = "") { snprintf(g_phase_buf, sizeof g_phase_buf, "%s %s", what, arg.c_str()); g_phase = g_phase_buf; }
+static int g_opno = -1;  // index of the plan op being executed
+static void phase(const char *what, const std::string &arg = "") {
+  snprintf(g_phase_buf, sizeof g_phase_buf, "%s %s [op %d]", what, arg.c_str(), g_opno); g_phase = g_phase_buf;
+  if (g_slot) snprintf((char *) g_slot->note, NOTE_LEN, "during %s", g_phase);  // what a watchdog kill reports
+}
 
 #define I10 int64_t, int64_t, int64_t, int64_t, int64_t, int64_t, int64_t, int64_t, int64_t, int64_t
 typedef int64_t (*wide_fn)(I10, I10, I10, I10, I10, I10, I10);   // 70 integer parameters
@@ -246,6 +250,7 @@ struct LcSim : Harness {
       for (auto &op : plan.at("ops").a) {
         if (out.violation) break;
         if (op.k != Json::Arr || op.size() == 0 || !ctx) continue;
+        g_opno = (int) (&op - &plan.at("ops").a[0]);
         exec_op(op, out);
         nops_done++;
         ledger_check(out);
@@ -549,7 +554,7 @@ struct LcSim : Harness {
     phase(interp ? "MIR_interp" : "call through address", n + fmt(" (iface %d, opt %d)", iface, opt_level));
     if (interp) {
       MIR_val_t res, vals[80]; memset(vals, 0, sizeof vals); for (int i = 0; i < na; i++) vals[i].i = args[(size_t) i]; for (int i = 0; i < nd; i++) vals[na + i].d = 2.0 + i;
-      if (clock_ticks & 1) MIR_interp_arr(ctx, f->item, &res, (size_t) (na + nd), vals);
+      if (!(op.size() > 3 && op[3].num() != 0)) MIR_interp_arr(ctx, f->item, &res, (size_t) (na + nd), vals);
       else { C->count("interp_variadic_entry"); MIR_interp(ctx, f->item, &res, (size_t) (na + nd), V10(vals, 0), V10(vals, 10), V10(vals, 20), V10(vals, 30), V10(vals, 40), V10(vals, 50), V10(vals, 60), V10(vals, 70)); }  /* both entry points (they size the argument buffer separately) */
       got = res.i; f->interp_runs++; C->count("interp_runs");
       if (f->generated) C->count("interp_after_generation");
@@ -646,6 +651,7 @@ struct LcSim : Harness {
     }
     if (!pend.empty()) { for (int mi : pend) for (auto &n : imps[mi]) if (!known.count(n)) push({"ldext", n, (int) r.below(8)}); push({"link", (int) r.range(1, 3), 0}); for (int mi : pend) linked.push_back(mi); }
     for (int mi : linked) { Json a = Json::array(); a.push((long long) r.range(0, 1000)); push({r.coin() ? "call" : "interp", prog::S("e%d", mi), a}); }
+    { Rng rv(mix2(r.next(), 0x7661726961646963ull)); for (auto &op : ops.a) if (op[0].s == "interp") op.push((int) rv.coin()); }  // 1: enter through the variadic MIR_interp, 0: MIR_interp_arr
     plan.set("knobs", kn); plan.set("prog", prog); plan.set("ops", ops);
     return plan;
   }
@@ -739,6 +745,7 @@ struct LcSim : Harness {
       for (auto &mo : prog.at("mods").a) for (auto &f : mo.at("funcs").a) { bool leaf = true; prog::walk(f.at("body"), [&](const Json &st) { if (st[0].s == "call" || st[0].s == "icall" || st[0].s == "ext" || st[0].s == "jt" || st[0].s == "lt" || st[0].s == "ld" || st[0].s == "extn") leaf = false; }); if (leaf && f.geti("na") >= 2 && re.size() < 2) re.set(std::to_string(1 + (int) re.size() * 2), f.gets("name")); }
       if (re.size()) kn.set("reenter", re);
     }
+    { Rng rv(mix2(r.next(), 0x7661726961646963ull)); for (auto &op : ops.a) if (op[0].s == "interp") op.push((int) rv.coin()); }  // 1: enter through the variadic MIR_interp, 0: MIR_interp_arr
     plan.set("knobs", kn); plan.set("prog", prog); plan.set("ops", ops);
     return plan;
   }
@@ -765,15 +772,19 @@ struct LcSim : Harness {
       // Same experiment for a wrong value: same program, same creation routes, one ordinary link step with the engine that
       // produced the wrong value (interpreter, or eager generation at each level), then the same calls.  If the model is
       // contradicted there too, the defect is in what the program means to that engine (C01/C02/C04/C07 territory).
-      bool interp = e.sig == "interp" || e.sig == "iface1";
-      for (int level = 0; level < (interp ? 1 : 4); level++) {
+      // (A function entered through MIR_interp still calls generated code when its callees were linked with a generating
+      // interface: for such histories both engines are tried.)
+      bool interp0 = e.sig == "interp" || e.sig == "iface1", mixed = false;
+      for (auto &op : plan.at("ops").a) if (op.k == Json::Arr && op.size() > 1 && ((op[0].s == "link" && (int) op[1].num() % 5 >= 2) || op[0].s == "gen")) mixed = true;
+      for (int round = interp0 ? -1 : 0; round < (interp0 && !mixed ? 0 : 4); round++) {
+        bool interp = round < 0; int level = interp ? 0 : round;
         Json p = plan; Json ops = Json::array(); size_t nm = plan.at("prog").at("mods").size();
         auto push = [&](std::initializer_list<Json> l) { Json o = Json::array(); for (auto &x : l) o.push(x); ops.push(o); };
         push({"opt", level});
         for (auto &op : plan.at("ops").a) if (op.k == Json::Arr && op.size() > 1 && (op[0].s == "scan" || op[0].s == "c2m" || op[0].s == "bin")) ops.push(op);
         for (size_t mi = 0; mi < nm; mi++) { push({"scan", (long long) mi}); push({"load", (long long) mi}); }
         push({"link", interp ? 1 : 2, 0});
-        for (auto &op : plan.at("ops").a) if (op.k == Json::Arr && op.size() > 1 && (op[0].s == "call" || op[0].s == "interp")) { Json c = op; c[0] = Json(e.sig == "interp" ? "interp" : "call"); ops.push(c); }
+        for (auto &op : plan.at("ops").a) if (op.k == Json::Arr && op.size() > 1 && (op[0].s == "call" || op[0].s == "interp")) { Json c = op; c[0] = Json(interp && e.sig == "interp" ? "interp" : "call"); ops.push(c); }
         p.set("ops", ops);
         ChildEnd c = run_isolated(*this, p, hang_seconds(), false);
         if (c.status == "violation" && (c.cls == "wrong_result" || c.cls == "wrong_ext_log")) {
@@ -787,8 +798,10 @@ struct LcSim : Harness {
     bool was_hang = e.cls == "hang"; int tmo = was_hang ? 12 : hang_seconds();
     {  // known finding: lazy-bb thunks / branch patches reach only +-2GB.  Same history with all code packed together?
       bool bb = false; for (auto &op : plan.at("ops").a) if (op.k == Json::Arr && op.size() > 1 && op[0].s == "link" && op[1].num() % 5 == 4) bb = true;
-      if (bb && !was_hang && plan.at("knobs").geti("placement", 1) != P_PACKED_FAR) {
+      if (bb && plan.at("knobs").geti("placement", 1) != P_PACKED_FAR) {  // (a truncated jump can also land in mapped code and spin: hang)
         Json p = plan; p["knobs"].set("placement", (int) P_PACKED_FAR);
+        size_t at = e.detail.rfind("[op "); int opno = at == std::string::npos ? -1 : atoi(e.detail.c_str() + at + 4);
+        if (opno >= 0 && (size_t) opno + 1 < p["ops"].a.size()) p["ops"].a.resize((size_t) opno + 1);  // the history up to and including the failing op
         ChildEnd c = run_isolated(*this, p, hang_seconds(), false);
         if (c.status == "ok") { e.cls = "lazybb_rel32_far_placement"; e.detail = "the same history with all code holders packed within 2GB runs correctly: " + e.detail; return; }
       }
